@@ -23,6 +23,7 @@ func (rr *SIG) Sign(k crypto.Signer, m *Msg) ([]byte, error) {
 
 	rr.Hdr = RR_Header{Name: ".", Rrtype: TypeSIG, Class: ClassANY, Ttl: 0}
 	rr.OrigTtl, rr.TypeCovered, rr.Labels = 0, 0, 0
+	rr.Signature = "" // a signature left from an earlier call must not be packed and hashed
 
 	// PackBuffer needs room for the uncompressed message, even if m is
 	// going to be compressed, otherwise it packs into a buffer of its own.
